@@ -34,6 +34,7 @@ type Prog struct {
 	funcs   []*ssa.Function         /* Source functions of the module, anons included. */
 	Flat    *ssa.FlattenStats       /* What helper inlining did. */
 	Helpers []string                /* Helper functions folded into their callers. */
+	Devirt  int                     /* Interface calls resolved to the one implementing type. */
 }
 
 // LoadOpts tunes loading.
@@ -288,12 +289,66 @@ func (p *Prog) flatten() {
 			tops = append(tops, f)
 		}
 	}
+	/* Calls through an interface declared in the module which exactly one
+	type of the module implements are calls of that type's methods. */
+	impl := map[string]*ssa.Function{}
+	resolve := func(recv types.Type, m *types.Func) *ssa.Function {
+		named, ok := recv.(*types.Named)
+		if !ok || nil == named.Obj().Pkg() || !strings.HasPrefix(named.Obj().Pkg().Path(), ModPath) {
+			return nil
+		}
+		iface, ok := named.Underlying().(*types.Interface)
+		if !ok {
+			return nil
+		}
+		key := named.String() + "." + m.Name()
+		if f, done := impl[key]; done {
+			return f
+		}
+		var found []types.Type
+		for _, pk := range p.Pkgs {
+			sc := pk.Types.Scope()
+			for _, n := range sc.Names() {
+				tn, ok := sc.Lookup(n).(*types.TypeName)
+				if !ok || tn.IsAlias() {
+					continue
+				}
+				if _, isIface := tn.Type().Underlying().(*types.Interface); isIface {
+					continue
+				}
+				for _, t := range []types.Type{tn.Type(), types.NewPointer(tn.Type())} {
+					if types.Implements(t, iface) {
+						found = append(found, t)
+						break
+					}
+				}
+			}
+		}
+		var f *ssa.Function
+		if 1 == len(found) {
+			f = p.SSA.LookupMethod(found[0], m.Pkg(), m.Name())
+			if nil != f && "" != f.Synthetic {
+				f = nil /* promoted through embedding: leave alone */
+			}
+		}
+		impl[key] = f
+		return f
+	}
+	for _, f := range tops {
+		p.Devirt += ssa.Devirtualize(f, resolve)
+	}
 	/* Calls which never return end their block, so that "if err != nil {
 	log.Fatalf(...) }" does not fall through in the flow graph. */
 	for _, f := range tops {
 		ssa.CutNoReturn(f, func(c *ssa.Call) bool { return isNoReturn(c) })
 	}
 	p.Flat = ssa.FlattenAll(tops, isHelper)
+	/* Values carried in local struct variables are used where they end up. */
+	for _, f := range tops {
+		if !isHelper(f) {
+			ssa.ForwardStructFields(f)
+		}
+	}
 	/* Which helpers are still referenced from non-helper code? */
 	still := map[*ssa.Function]bool{}
 	var visit func(f *ssa.Function)
